@@ -19,6 +19,8 @@ def content_bytes(c):
         return bytes.fromhex(c["hex"])
     if "zeros" in c:
         return bytes(c["zeros"])            # big files (behaviour that depends on a size threshold)
+    if "sparse" in c:
+        return bytes(c["sparse"])           # a hole: length n, (almost) no allocated blocks - see materialise()
     n = c.get("len", 0)
     if "uniq" in c:
         return hashlib.shake_128(("uniq:" + c["uniq"]).encode()).digest(n)
@@ -92,7 +94,10 @@ class World:
                     os.makedirs(p)
             elif t == "f":
                 with open(p, "wb") as f:
-                    f.write(content_bytes(e["c"]))
+                    if "sparse" in e["c"]:
+                        f.truncate(e["c"]["sparse"])
+                    else:
+                        f.write(content_bytes(e["c"]))
                 if "mode" in e:
                     os.chmod(p, e["mode"])
                 mt = e.get("mt", T0_NS - 3600 * 10**9)
